@@ -35,6 +35,7 @@ YContentCx(id, cx) == [St("ycontent", id) EXCEPT !.e = cx]
 Incl(id, n)      == [St("include", id) EXCEPT !.n = n]
 InclCx(id, n, cx) == [St("include", id) EXCEPT !.n = n, !.e = cx]
 ExecLet(id, n, t) == [St("execlet", id) EXCEPT !.n = n, !.n2 = t]
+IsSetExec(id, t) == [St("issetexec", id) EXCEPT !.n2 = t]
 ExecLetCx(id, n, t, cx) == [St("execlet", id) EXCEPT !.n = n, !.n2 = t, !.e = cx]
 IncIf(id, t)     == [St("incif", id) EXCEPT !.n2 = t]
 Ret(id, e)       == [St("return", id) EXCEPT !.e = e]
@@ -54,7 +55,7 @@ L(i) == ToString(i)
 
 WrapKinds == {"range", "rangekv", "rangeelse", "if", "ifelse", "iflet", "ifletelse", "let",
               "ycont", "ycontp", "ydef", "yctx", "ybody", "ybodyp", "blockdef",
-              "include", "includectx", "exec", "tryin", "tryincatch", "catchbody"}
+              "include", "includectx", "exec", "issetexec", "tryin", "tryincatch", "catchbody"}
 
 \* the wrappers that push interpreter state (used for the deepest enumeration)
 CoreKinds == {"range", "rangekv", "iflet", "let", "ycont", "ycontp", "yctx", "ybody", "ybodyp",
@@ -97,6 +98,8 @@ Wrap(kind, i, r) ==
     [] kind = "include"   -> Res(<<Incl(id(""), "inc" \o L(i))>>, r.ts \o <<Tm("inc" \o L(i), "", <<>>, m)>>, r.bl)
     [] kind = "includectx"-> Res(<<InclCx(id(""), "inc" \o L(i), Lit("ic" \o L(i)))>>, r.ts \o <<Tm("inc" \o L(i), "", <<>>, m)>>, r.bl)
     [] kind = "exec"      -> Res(<<ExecLet(id(""), "r", "inc" \o L(i))>>, r.ts \o <<Tm("inc" \o L(i), "", <<>>, m)>>, r.bl)
+    \* a failure below is swallowed by isset: rendering goes on as if the expression had not been evaluated
+    [] kind = "issetexec" -> Res(<<IsSetExec(id(""), "ise" \o L(i))>>, r.ts \o <<Tm("ise" \o L(i), "", <<>>, m)>>, r.bl)
     [] kind = "tryin"     -> Res(<<TryS(id(""), m)>>, r.ts, r.bl)
     [] kind = "tryincatch"-> Res(<<TryCatchS(id(""), m, "", <<T(id("c"))>>)>>, r.ts, r.bl)
     [] kind = "catchbody" -> Res(<<TryCatchS(id(""), <<P(id("f"), FailE)>>, "e", m)>>, r.ts, r.bl)
